@@ -657,9 +657,9 @@ CHECKS["C02"] = {
     "asan": True,
     "fuzz_seconds": 150,
     "level": "exploration",
-    "technique": "runtime monitoring with sanitizers: panic/step/allocation/position/drop monitors over hostile inputs; Miri on the unsafe paths; AddressSanitizer+LeakSanitizer re-run",
-    "rule": "inputs: all byte strings of length <= 2 (quick) / 3 (thorough); all 256 initial bytes x every argument width x boundary arguments x fillers, alone and nested in 8 contexts; type-directed mutants of valid encodings of every built-in type, of random item trees and of arrays aimed at the [T; N] paths; large hostile inputs. Each input runs through ~185 entry points (typed decode of every built-in type incl. drop-tracking containers, every accessor, skip, iterators drained and abandoned, tokens, probe, info::Size) and through random sequences of <= 8 decoder calls interleaved with set_position (incl. usize::MAX). distinct = enumerated inputs + distinct hashed mutants (each x all entry points)",
-    "level_text": "Totality is an invariant, so no reference is needed: every call is wrapped in a panic guard, a step budget on the decoder's input-access hook (64*len+256; exceeding it is a non-termination verdict independent of machine load), a counting allocator (16 KiB + 128*len peak, no single request above it, nothing retained), a position check and a drop-exactly-once monitor. The short-string space is enumerated completely, the declared-length space by boundary sweep, and the unsafe ArrayVec/ByteSlice code additionally runs under Miri (both tiers) and ASan/LSan (thorough).",
+    "technique": "runtime monitoring with sanitizers: panic/step/stack-depth/allocation/position/drop monitors over hostile inputs; Miri on the unsafe paths; AddressSanitizer+LeakSanitizer re-run; libFuzzer (coverage-guided) as an additional workload source whose corpus and crashes are replayed through the monitors",
+    "rule": "inputs: all byte strings of length <= 2 (quick) / 3 (thorough); all 256 initial bytes x every argument width x boundary arguments x fillers, alone and nested in 8 contexts; type-directed mutants of valid encodings of every built-in type, of random item trees and of arrays aimed at the [T; N] paths; deep nesting families (chains of up to 30 000 / 100 000 nested tags, one-element arrays, one-entry maps, indefinite containers, closed and cut short); large hostile inputs; in the thorough tier a 150 s x 16 fork libFuzzer session (ASan build) whose evolved corpus and artifacts are replayed through the same monitors. Each input runs through ~185 entry points (typed decode of every built-in type incl. drop-tracking containers, every accessor, skip, iterators drained and abandoned, tokens, probe, info::Size) and through random sequences of <= 8 decoder calls interleaved with set_position (incl. usize::MAX). distinct = enumerated inputs + distinct hashed mutants (each x all entry points)",
+    "level_text": "Totality is an invariant, so no reference is needed: every call is wrapped in a panic guard, a step budget on the decoder's input-access hook (64*len+256; exceeding it is a non-termination verdict independent of machine load), a stack-depth budget on the same hook (192 KiB below the call whatever the input: recursion of the supported types is bounded by the type, so runaway recursion is observed as a verdict instead of a stack overflow), a counting allocator (16 KiB + 128*len peak, no single request above it, nothing retained), a position check and a drop-exactly-once monitor. The short-string space is enumerated completely, the declared-length space by boundary sweep, and the unsafe ArrayVec/ByteSlice code additionally runs under Miri (both tiers) and ASan/LSan (thorough).",
     "level_note": "Trusted: the step hook covers every decoder loop (each iteration calls current/read/peek/read_slice). Bounds are generous constants; pre-allocation from a declared length is >= 10^6 x larger. Inputs >= 2 GiB and 32-bit targets are out of reach. A clean Miri/ASan run covers the driven paths only.",
     "assumptions": COMMON_ASSUMPTIONS + ["user-defined recursive types are outside 'supported types'", "a decoding call may move the cursor to at most max(len, position before the call); from a position > len every call must fail"],
 }
